@@ -225,6 +225,46 @@ pub fn make_root_handler(node: &Arc<Node>, proto: u32) -> vls_protocol_signer::h
     root
 }
 
+/// `setup` as the SetupChannel protocol message (channel_value is satoshi, push_value millisatoshi,
+/// to_self_delay the delay the holder selected, remote_to_self_delay the counterparty's, an empty
+/// script means none)
+pub fn setup_channel_msg(setup: &lightning_signer::channel::ChannelSetup) -> vls_protocol::msgs::SetupChannel {
+    use vls_protocol::model::{Basepoints, PubKey};
+    use vls_protocol::serde_bolt::Octets;
+    let pts = &setup.counterparty_points;
+    vls_protocol::msgs::SetupChannel {
+        is_outbound: setup.is_outbound,
+        channel_value: setup.channel_value_sat,
+        push_value: setup.push_value_msat,
+        funding_txid: setup.funding_outpoint.txid,
+        funding_txout: setup.funding_outpoint.vout as u16,
+        to_self_delay: setup.holder_selected_contest_delay,
+        local_shutdown_script: Octets(setup.holder_shutdown_script.as_ref().map(|x| x.to_bytes()).unwrap_or_default()),
+        local_shutdown_wallet_index: None,
+        remote_basepoints: Basepoints {
+            revocation: PubKey(pts.revocation_basepoint.0.serialize()),
+            payment: PubKey(pts.payment_point.serialize()),
+            htlc: PubKey(pts.htlc_basepoint.0.serialize()),
+            delayed_payment: PubKey(pts.delayed_payment_basepoint.0.serialize()),
+        },
+        remote_funding_pubkey: PubKey(pts.funding_pubkey.serialize()),
+        remote_to_self_delay: setup.counterparty_selected_contest_delay,
+        remote_shutdown_script: Octets(setup.counterparty_shutdown_script.as_ref().map(|x| x.to_bytes()).unwrap_or_default()),
+        channel_type: Octets(vls_protocol_signer::util::commitment_type_to_channel_type(setup.commitment_type)),
+    }
+}
+
+/// send `setup` as a SetupChannel message (through the wire encoding) to the channel handler of
+/// (peer, dbid) at protocol `proto`
+pub fn setup_channel_via_handler(node: &Arc<Node>, proto: u32, peer: [u8; 33], dbid: u64, setup: &lightning_signer::channel::ChannelSetup) -> bool {
+    use vls_protocol::msgs::{self, SerBolt};
+    use vls_protocol_signer::handler::Handler;
+    let root = make_root_handler(node, proto);
+    let handler = root.for_new_client(1, vls_protocol::model::PubKey(peer), dbid);
+    let m = setup_channel_msg(setup);
+    handler.handle(msgs::from_vec(m.as_vec()).expect("SetupChannel survives the wire")).is_ok()
+}
+
 /// a signed BOLT11 invoice for `hash`, created at `now_secs`
 pub fn make_bolt11(hash: [u8; 32], amount_msat: u64, now_secs: u64) -> lightning_signer::invoice::Invoice {
     use lightning_signer::bitcoin::hashes::{sha256::Hash as Sha256Hash, Hash};
@@ -232,16 +272,16 @@ pub fn make_bolt11(hash: [u8; 32], amount_msat: u64, now_secs: u64) -> lightning
     use lightning_signer::lightning::types::payment::PaymentSecret;
     use lightning_signer::lightning_invoice::{Currency, InvoiceBuilder};
     let private_key = SecretKey::from_slice(&[42; 32]).unwrap();
+    let b = InvoiceBuilder::new(Currency::Regtest)
+        .description("verif".into())
+        .payment_hash(Sha256Hash::from_byte_array(hash))
+        .payment_secret(PaymentSecret([7; 32]))
+        .duration_since_epoch(Duration::from_secs(now_secs))
+        .min_final_cltv_expiry_delta(144);
+    // amount 0: an invoice that names no amount
+    let b = if amount_msat > 0 { b.amount_milli_satoshis(amount_msat) } else { b };
     lightning_signer::invoice::Invoice::Bolt11(
-        InvoiceBuilder::new(Currency::Regtest)
-            .description("verif".into())
-            .payment_hash(Sha256Hash::from_byte_array(hash))
-            .payment_secret(PaymentSecret([7; 32]))
-            .duration_since_epoch(Duration::from_secs(now_secs))
-            .min_final_cltv_expiry_delta(144)
-            .amount_milli_satoshis(amount_msat)
-            .build_signed(|h| Secp256k1::new().sign_ecdsa_recoverable(h, &private_key))
-            .unwrap(),
+        b.build_signed(|h| Secp256k1::new().sign_ecdsa_recoverable(h, &private_key)).unwrap(),
     )
 }
 
